@@ -166,16 +166,20 @@ class _Commenter:
 
 def _logical_start(lines, lineno, check_prev=False):
     logical_finder = LogicalLineFinder(ArrayLinesAdapter(lines))
-    if check_prev:
-        prev = lineno - 1
-        while prev > 0:
-            start, end = logical_finder.logical_line_in(prev)
-            if end is None or start <= lineno < end:
-                return start
-            if start <= prev:
-                break
-            prev -= 1
-    return logical_finder.logical_line_in(lineno)[0]
+    try:
+        if check_prev:
+            prev = lineno - 1
+            while prev > 0:
+                start, end = logical_finder.logical_line_in(prev)
+                if end is None or start <= lineno < end:
+                    return start
+                if start <= prev:
+                    break
+                prev -= 1
+        return logical_finder.logical_line_in(lineno)[0]
+    except IndentationError:
+        # the text being typed does not tokenize around this line: the line stands for itself
+        return lineno
 
 
 def _get_line_indents(line):
